@@ -289,7 +289,19 @@ func (d *DefaultClientDispatcher) Resume() {
 		d.timer.Reset(d.timeout)
 	} else {
 		// Can dispatch a new request. Notifying message pump.
-		d.readyForDispatch <- true
+		d.signalReady()
+	}
+}
+
+// signalReady tells the message pump that the next request in the queue may be sent.
+//
+// The token only wakes the pump up: with one pending already there is nothing to add. Never wait for
+// room in the channel: the pump, its only reader, completes requests itself (timeouts, failed writes)
+// and would wait for itself forever.
+func (d *DefaultClientDispatcher) signalReady() {
+	select {
+	case d.readyForDispatch <- true:
+	default:
 	}
 }
 
@@ -308,7 +320,7 @@ func (d *DefaultClientDispatcher) CompleteRequest(requestId string) {
 	d.pendingRequestState.DeletePendingRequest(requestId)
 	log.Debugf("removed request %v from front of queue", bundle.Call.UniqueId)
 	// Signal that next message in queue may be sent
-	d.readyForDispatch <- true
+	d.signalReady()
 }
 
 // ServerDispatcher contains the state and logic for handling outgoing messages on a server endpoint.
@@ -696,6 +708,21 @@ func (d *DefaultServerDispatcher) CompleteRequest(clientID string, requestID str
 	q.Pop()
 	d.pendingRequestState.DeletePendingRequest(clientID, requestID)
 	log.Debugf("completed request %s for %s", callID, clientID)
-	// Signal that next message in queue may be sent
-	d.readyForDispatch <- clientID
+	// Signal that next message in queue may be sent.
+	// Never wait for room in the channel here: the message pump, its only reader, completes requests
+	// itself (timeouts, failed writes) and would wait for itself forever, e.g. when the requests of
+	// several clients time out at the same moment.
+	select {
+	case d.readyForDispatch <- clientID:
+	default:
+		d.mutex.RLock()
+		stoppedC := d.stoppedC
+		d.mutex.RUnlock()
+		go func() {
+			select {
+			case d.readyForDispatch <- clientID:
+			case <-stoppedC:
+			}
+		}()
+	}
 }
